@@ -138,7 +138,19 @@ def shallow_copy_structure(rec, rng):
         for k in range(5 if rec.tier == 'quick' else 60):
             legs = [gen.random_leg(rng, chinfo) for _ in range(int(rng.integers(2, 4)))]
             labels = [f'l{i}' for i in range(len(legs))]
+            def drop_block(t, ax=0):
+                # a mask that removes (at least) one complete charge block of leg `ax`: the block numbers behind it change
+                leg = t.legs[ax]
+                m = rng.random(leg.ind_len) < 0.8
+                if leg.block_number > 1:
+                    q = int(rng.integers(0, leg.block_number - 1))        # not the last one: later blocks get renumbered
+                    m[leg.slices[q]:leg.slices[q + 1]] = False
+                if not m.any():
+                    m[-1] = True
+                return t.iproject(m, ax)
             ops = [('iproject(mask)', lambda t: t.iproject(rng.random(t.shape[0]) < 0.6, 0)),
+                   ('iproject(mask without one charge block)', lambda t: drop_block(t, 0)),
+                   ('iproject(mask without one charge block, last leg)', lambda t: drop_block(t, t.rank - 1)),
                    ('iproject(indices)', lambda t: t.iproject([int(x) for x in sorted(set(rng.integers(0, t.shape[1], size=2).tolist()))], 1)),
                    ('itranspose', lambda t: t.itranspose([int(x) for x in rng.permutation(t.rank)])),
                    ('isort_qdata', lambda t: t.isort_qdata()),
@@ -148,9 +160,15 @@ def shallow_copy_structure(rec, rng):
                    ('legs[0] = bunched leg', lambda t: t.legs.__setitem__(0, t.legs[0].copy()))]
             for name, fn in ops:
                 a = gen.random_array(rng, legs, float, labels=labels)
-                b = a.copy(deep=False)
+                src = ['drawn', 'deep copy', 'sum'][int(rng.integers(0, 3))]
+                if src == 'deep copy':
+                    a = a.copy(deep=True)
+                elif src == 'sum':
+                    a = a + a
+                how = ['copy(deep=False)', 'replace_label'][int(rng.integers(0, 2))]
+                b = a.copy(deep=False) if how == 'copy(deep=False)' else a.replace_label(labels[-1], 'tmp').ireplace_label('tmp', labels[-1])
                 ref = a.to_ndarray().copy()
-                inp = {'op': name, 'mod': chinfo.mod.tolist()}
+                inp = {'op': name, 'mod': chinfo.mod.tolist(), 'tensor': src, 'shallow copy by': how}
                 rec.begin(f'C03 shallow copy {inp} k={k}')
                 ok, _ = rec.guarded(f'{name}:exception', lambda: fn(a), inp)
                 rec.case(('shallow', name, ci, k), len(b._data) >= 2)
